@@ -674,6 +674,36 @@ func GenTypes(t *rapid.T, o *Opts) *Spec {
 		g.newDecl(root, root.Files[0], outer, &tinfo{cat: "struct"})
 		o.class("feature:promoted_field_same_go_name_distinct_key")
 	}
+	if o.LongArrays && rapid.Bool().Draw(t, "longArray") {
+		// a fixed array longer than the slices the generators build (3..7 elements), whose elements have no
+		// acceptable zero value: a string enum, or a union
+		var es, us []*tinfo
+		for _, ti := range g.types {
+			if ti.pkg != root || !ti.exported {
+				continue
+			}
+			if ti.cat == "enum" && ti.base == "string" {
+				es = append(es, ti)
+			}
+			if ti.cat == "union" && len(g.spec.Unions()[root.Path][ti.d.Name].Members) > 0 {
+				us = append(us, ti)
+			}
+		}
+		n := rapid.IntRange(4, 9).Draw(t, "longArrayLen")
+		switch {
+		case len(es) > 0:
+			e := es[rapid.IntRange(0, len(es)-1).Draw(t, "longArrayEnum")]
+			h := &Decl{Kind: KStruct, Name: g.freshName(root, "longArrayHolder", true), Fields: []*Field{
+				{Name: "Zpalette", Type: Array(n, g.refTo(root, e))}, {Name: "Zn", Type: Basic("int")}}}
+			g.newDecl(root, root.Files[0], h, &tinfo{cat: "struct"})
+			o.class("feature:long_fixed_array_of_string_enum")
+		case len(us) > 0 && !o.gated("named_array_of_union"):
+			u := us[rapid.IntRange(0, len(us)-1).Draw(t, "longArrayUnion")]
+			ad := &Decl{Kind: KNamed, Name: g.freshName(root, "longArrayName", true), Type: Array(n, g.refTo(root, u))}
+			g.newDecl(root, root.Files[0], ad, &tinfo{cat: "array", hasUnion: true, elemUnion: true})
+			o.class("feature:long_fixed_array_of_unions")
+		}
+	}
 	if o.SmallKeyMaps && rapid.Bool().Draw(t, "smallKeyMap") {
 		// a map whose key type has only a handful of values (an enum): it cannot hold dozens of entries
 		var es []*tinfo
